@@ -650,6 +650,32 @@ pub fn inputs_c17(r: &mut Rng, n: usize, _tier: &str, out: &mut dyn Write) {
             }
         }
     }
+    // the ET / TDB Julian-date views on epochs HELD in ET / TDB (exact: no conversion): the result-on-a-century class
+    // (JD of J2000 = 67 centuries + 4370 days, so the view is a whole number of centuries at c centuries + 32155 days),
+    // whole and half days, day and century edges, anything within +/- 10 000 years (seeded change C17-8: an integer
+    // fast path with `>` for `>=` in the century carry, wrong for one nanosecond per century; the metamorphic op acc_via
+    // cannot see a defect of the view itself)
+    if n >= 5000 {
+        for (name, ts) in [("to_jde_et", "ET"), ("to_jde_tdb", "TDB")] {
+            for c in -8i128..=8 {
+                for dt in [-1i128, 0, 1] {
+                    writeln!(out, "acc17own {} {}:{}", name, dstr(c * NPC + 32_155 * DAY + dt), ts).unwrap();
+                    writeln!(out, "acc17own {} {}:{}", name, dstr(c * NPC + dt), ts).unwrap();
+                    writeln!(out, "acc17own {} {}:{}", name, dstr(c * NPC + NPC / 2 + dt), ts).unwrap();
+                }
+            }
+            for _ in 0..120 {
+                let v = match r.below(4) {
+                    0 => (r.range_i64(-3_652_500, 3_652_500) as i128) * DAY + small_off(r),
+                    1 => (r.range_i64(-7_305_000, 7_305_000) as i128) * (DAY / 2),
+                    2 => (r.range_i64(-100, 100) as i128) * NPC + 32_155 * DAY + small_off(r),
+                    _ => (r.range_i64(-3_652_500, 3_652_500) as i128) * DAY + r.below(DAY as u64) as i128,
+                };
+                writeln!(out, "acc17own {} {}:{}", name, dstr(v), ts).unwrap();
+            }
+        }
+        n = n.saturating_sub(2 * (17 * 9 + 120));
+    }
     if n >= 5000 {
         super::wrappers::gen_c17_units(out);
         n = n.saturating_sub(864);
@@ -767,6 +793,28 @@ pub fn inputs_c17(r: &mut Rng, n: usize, _tier: &str, out: &mut dyn Write) {
 
 pub fn inputs_c12(r: &mut Rng, n: usize, _tier: &str, out: &mut dyn Write) {
     for k in 0..n {
+        if k % 20 == 19 {
+            // compare-after-arithmetic (seeded change C12-7: `epoch += Unit` leaving (c, one century of ns)): the result of
+            // every stepping entry point against the freshly built epoch of the same parts, a neighbour, and its re-expression
+            let ts = *r.pick(&NONDYN);
+            let how = *r.pick(&["add", "sub", "addassign", "subassign", "addu", "subu", "addassign_u", "subassign_u"]);
+            let kc = r.range_i64(-3, 3) as i128;
+            let dlt = *r.pick(&[0i128, 0, 0, 1, -1]);
+            let dz = *r.pick(&[0i128, 0, 1, -1, 2]);
+            let other = *r.pick(&NONDYN);
+            let plus = how.starts_with("add");
+            if how.ends_with('u') {
+                let u = *r.pick(&["ns", "us", "ms", "s", "min", "h", "d", "wk", "cy"]);
+                let f: i128 = match u { "ns" => 1, "us" => 1_000, "ms" => 1_000_000, "s" => SEC, "min" => 60 * SEC, "h" => 3600 * SEC, "d" => DAY, "wk" => 7 * DAY, _ => NPC };
+                let e = if r.chance(1, 3) { epoch_total(r, ts) } else if plus { kc * NPC - f + dlt } else { kc * NPC + f + dlt };
+                writeln!(out, "ecmp_via {} {}:{} {} {} {}", how, dstr(e), ts, u, dstr(dz), other).unwrap();
+            } else {
+                let e = if r.chance(1, 2) { epoch_total(r, ts) } else { kc * NPC + r.below(NPC as u64) as i128 };
+                let b = if r.chance(1, 4) { small_off(r) } else if plus { NPC - e.rem_euclid(NPC) + dlt } else { e.rem_euclid(NPC) + dlt } + if r.chance(1, 3) { r.range_i64(-2, 2) as i128 * NPC } else { 0 };
+                writeln!(out, "ecmp_via {} {}:{} {} {} {}", how, dstr(e), ts, dstr(b), dstr(dz), other).unwrap();
+            }
+            continue;
+        }
         if k % 40 == 39 {
             // construct-then-compare: an operand built from RAW parts (nanosecond field of up to 5.8 centuries)
             // against the same instant, a neighbour or another instant given canonically in any of the seven scales
@@ -1004,6 +1052,28 @@ pub fn inputs_c15(r: &mut Rng, n: usize, tier: &str, out: &mut dyn Write) {
 }
 
 pub fn inputs_c16(r: &mut Rng, n: usize, _tier: &str, out: &mut dyn Write) {
+    // phase x midnight block: the days on which the periodic term of ET/TDB is EXTREMAL (mean anomaly (k + 1/2) pi, early
+    // April and early October), at the midnights of the dynamical calendar, a few hundred ns to a few us either side --
+    // where a shortcut that takes the day from TT (or from the other dynamical scale) unless the instant is "within the
+    // amplitude of the term" of midnight is wrong if its amplitude is the other scale's (seeded change C16-8: NAIF_K =
+    // 1.657 ms used as the guard band for TDB, whose term is 1.658 ms: wrong for < 1 us, on about eight days a year)
+    for (i, dy) in ["ET", "TDB"].iter().enumerate() {
+        let (m0, m1) = if *dy == "ET" { (6.239996_f64, 1.99096871e-7_f64) } else { (357.528_f64.to_radians(), 1.990910018065731e-7_f64) };
+        for j in 0..12i64 {
+            let k: i64 = if j < 4 { 2 * (j - 2) + 1 } else { 2 * r.range_i64(-6000, 6000) + 1 }; // odd multiples of pi/2
+            let t0 = ((k as f64) * std::f64::consts::FRAC_PI_2 - m0) / m1; // seconds past J2000 (noon)
+            let day0 = ((t0 / 86400.0).round() as i128) * DAY + DAY / 2; // a midnight of the dynamical calendar next to it
+            for dd in -4i128..=4 {
+                for off in [310i128, 450, 600, 800, 990, 1500, 5000] {
+                    for sg in [1i128, -1] {
+                        let t = s2e(&format!("{}:{}", dstr(day0 + dd * DAY + sg * off), dy));
+                        let src = ["TAI", "TT", "UTC", "GPST", "GST", "BDT", "QZSST", if *dy == "ET" { "TDB" } else { "ET" }][((j as i128 + dd + 4) as usize + off as usize + i) % 8];
+                        writeln!(out, "weekday_dyn {} {}", e2s(t.to_time_scale(s2ts(src))), dy).unwrap();
+                    }
+                }
+            }
+        }
+    }
     // exhaustive small tables first
     for w in 0..7 {
         for i in 0..=255u32 {
@@ -1408,6 +1478,16 @@ pub fn exec(op: &str, a: &[&str]) -> Option<String> {
         }
         // ---- C17
         "acc17" => acc17_call(a[0], &s2e(a[1])).and_then(okd),
+        // the Julian-date views in ET / TDB of an epoch HELD in that scale (no conversion involved: exact), duration and days
+        "acc17own" => {
+            let e = s2e(a[1]);
+            let (d, f) = match (a[0], e.time_scale) {
+                ("to_jde_et", TimeScale::ET) => (e.to_jde_et_duration(), e.to_jde_et_days()),
+                ("to_jde_tdb", TimeScale::TDB) => (e.to_jde_tdb_duration(), e.to_jde_tdb_days()),
+                _ => return None,
+            };
+            Some(format!("ok {} {}", d2s(d), f2s(f)))
+        }
         // metamorphic: a view of an epoch equals the same view of its re-expression in the view's own scale
         // (used with ET/TDB epochs, whose conversion is C07's business)
         "acc_via" => {
@@ -1585,6 +1665,31 @@ pub fn exec(op: &str, a: &[&str]) -> Option<String> {
             let mut v = vec![s2e(a[0]), s2e(a[1]), s2e(a[2])];
             v.sort();
             Some(format!("ok {} {} {}", e2s(v[0]), e2s(v[1]), e2s(v[2])))
+        }
+        "ecmp_via" => {
+            // compare-after-arithmetic: x = E <how> B as the entry point leaves it; z = the freshly constructed epoch of the
+            // same parts moved by a[3] ns, z2 = z re-expressed in scale a[4]; (x, z, cmp, rcmp, eq, req, z2, cmp, rcmp, eq, req)
+            let e0 = s2e(a[1]);
+            let x = match a[0] {
+                "add" => e0 + s2d(a[2]),
+                "sub" => e0 - s2d(a[2]),
+                "addassign" => { let mut e = e0; e += s2d(a[2]); e }
+                "subassign" => { let mut e = e0; e -= s2d(a[2]); e }
+                "addu" => e0 + s2u(a[2]),
+                "subu" => e0 - s2u(a[2]),
+                "addassign_u" => { let mut e = e0; e += s2u(a[2]); e }
+                "subassign_u" => { let mut e = e0; e -= s2u(a[2]); e }
+                _ => return None,
+            };
+            let (c, ns) = x.duration.to_parts();
+            let dz = s2d(a[3]);
+            let z = Epoch::from_duration(Duration::from_parts(c, ns) + dz, x.time_scale);
+            let z2 = z.to_time_scale(s2ts(a[4]));
+            let mut o = format!("ok {}", e2s(x));
+            for w in [z, z2] {
+                o.push_str(&format!(" {} {} {} {} {}", e2s(w), ord2s(x.cmp(&w)), ord2s(w.cmp(&x)), b2s(x == w), b2s(w == x)));
+            }
+            Some(o)
         }
         "ecmp_parts" => {
             // an epoch built from raw TAI parts against another one: (cmp, eq, reverse cmp, reverse eq)
